@@ -68,3 +68,17 @@ package base
 // ---- chunks (C11) -------------------------------------------------------------------------------------------------
 // chunkrecords(c): ghost — the number of records chunk c contains
 //@ pure func chunkrecords(c *LogChunk) int
+
+// ---- transforms (C15): ghost call log ------------------------------------------------------------------------------
+// tlog[0..tlogn): the transform functions called so far, in call order (identified by ref(f)); tres[i] their results (1 = PASS)
+//@ ghost var tlogn int
+//@ ghost var tlog [1099511627776]int
+//@ ghost var tres [1099511627776]int
+// contract of every transform function value: appends itself to the log; may change the record and its own state, but
+// not the configuration-time tables (transform lists, matcher lists, locator lists)
+//@ fieldspec LogTransformFunc(input *LogRecord) FilterResult
+//@   requires input != nil
+//@   modifies everything
+//@   preserves mem(LogTransformFunc), mem(LogFieldLocator), LogRecord.Fields
+//@   ensures  tlogn == old(tlogn) + 1 && tlog[old(tlogn)] == self && tres[old(tlogn)] == (result ? 1 : 0)
+//@   ensures  forall i int :: 0 <= i && i < old(tlogn) ==> tlog[i] == old(tlog[i]) && tres[i] == old(tres[i])
